@@ -258,6 +258,12 @@ Theorem C18_opt_unsetFrameFd_effect :
 Proof. exact unset_frame_fd_effect. Qed.
 Print Assumptions C18_opt_unsetFrameFd_effect.
 
+(* a name that no frame carries now addresses nothing: after an earlier stage renamed the frame, its old name is such a name *)
+Theorem C18_opt_fd_unknown_name_is_noop :
+  forall n m, no_char COMMA n -> ~ In n (map cf_name (cm_frames m)) -> set_frame_fd n m = m /\ unset_frame_fd n m = m.
+Proof. exact fd_options_unknown_name_noop. Qed.
+Print Assumptions C18_opt_fd_unknown_name_is_noop.
+
 (* frameIdIncrement n: every identifier number + n, nothing else *)
 Theorem C18_opt_frameIdIncrement_effect :
   forall n m, frame_id_increment (render_int n) m = Some (set_cframes m (map (fun f => with_id f (cf_id f + n)) (cm_frames m))).
